@@ -267,6 +267,7 @@ func runCheck(prop, tier string) int {
 
 	var samples []obSample
 	canaryGroup := map[string]bool{}
+	witnessObs := map[string][]*Result{}
 	canaryBase := regexp.MustCompile(`@\d+$`)
 	obligations, discharged, canaries, canOK, covers, covOK := 0, 0, 0, 0, 0, 0
 	var known []string
@@ -284,6 +285,9 @@ func runCheck(prop, tier string) int {
 			}
 			if r.OK {
 				canaryGroup[base] = true
+			}
+			if ob.MustWitness {
+				witnessObs[base] = append(witnessObs[base], r)
 			}
 			continue
 		case ob.Cover:
@@ -334,6 +338,28 @@ func runCheck(prop, tier string) int {
 		vios = append(vios, vio{name: ob.Name, detail: detail, output: r.Output, res: r})
 	}
 	for base, ok := range canaryGroup {
+		if rs := witnessObs[base]; len(rs) > 0 {
+			// a witness clause: an obligation of the property (some execution must reach the state)
+			obligations++
+			if ok {
+				discharged++
+				samples = append(samples, obSample{base, "sat", "", 0, rs[0].Ob.Pos, "witness found: " + rs[0].Ob.Desc})
+				continue
+			}
+			allUnsat := true
+			for _, r := range rs {
+				if r.Status != "unsat" {
+					allUnsat = false
+				}
+			}
+			if allUnsat {
+				vios = append(vios, vio{name: base, detail: "witness not found: no execution of the function ends in the required state (every return point refutes it)", res: nil})
+			} else {
+				fmt.Fprintf(os.Stderr, "govc: witness %s was neither found nor refuted (solver gave no definite answer)\n", base)
+				exit = 2
+			}
+			continue
+		}
 		canaries++
 		if ok {
 			canOK++
